@@ -37,6 +37,21 @@ class Unsupported(Exception):
 
 
 SAME_MODULE_PUBLIC_HELPERS = True
+# public functions of the package that the rules (and the effect tables) treat as primitives: never inlined across modules
+PRIMITIVES = {"get_rng_from_global", "getall", "getall_as_list", "getall_as_numpy", "getall_as_tensor", "getall_class_as_tensor",
+              "to_one_hot_vector", "to_one_hot_matrix", "object_to_transform", "get_rank", "get_world_size", "is_distributed",
+              "get_class_counts", "get_class_counts_and_indices", "get_class_counts_from_dataset", "unzip", "run_unzip_jobs",
+              "unzip_batched_zips", "unzip_imagefolder_classwise", "folder_contains_mostly_zips", "log", "to_2tuple",
+              "copy_folder_from_global_to_local", "copy_imagefolder_from_global_to_local", "intersection_area_ijhw",
+              "intersection_area_ijkl", "is_managed", "is_rank0", "barrier", "all_gather_nograd"}
+
+
+def _small_helper(fn) -> bool:
+    """A short, loop-free function: the kind of helper a clean-up moves to module level for several classes to share."""
+    body = _body_wo_doc(fn)
+    n = sum(1 for x in ast.walk(fn) if isinstance(x, ast.stmt)) - 1
+    return n <= 8 and not any(isinstance(x, (ast.For, ast.While, ast.With, ast.Try, ast.Yield, ast.YieldFrom, ast.Lambda))
+                              for x in ast.walk(fn)) and bool(body)
 
 
 def is_private(name: str) -> bool:
@@ -163,6 +178,9 @@ class _Rename(ast.NodeTransformer):
             node.name = self.mapping[node.name]
         return self.generic_visit(node)
 
+    visit_AsyncFunctionDef = visit_FunctionDef
+    visit_ClassDef = visit_FunctionDef
+
 
 # ---- the pass ------------------------------------------------------------------------------------------------------------
 class Inliner:
@@ -237,8 +255,9 @@ class Inliner:
             else:
                 r = self.prog.resolve_name(fi.module, f.id)
                 # private helpers of the package, and helper functions that live in the caller's own module
-                if r and r[0] == "func" and (is_private(f.id) or (r[1].module is fi.module and r[1].cls is None
-                                                                   and SAME_MODULE_PUBLIC_HELPERS)):
+                if r and r[0] == "func" and r[1].cls is None and (
+                        is_private(f.id) or (r[1].module is fi.module and SAME_MODULE_PUBLIC_HELPERS) or (
+                            f.id not in PRIMITIVES and _small_helper(r[1].node))):
                     callee = r[1]
         if callee is None or callee.node is fi.node:
             return None
@@ -775,7 +794,8 @@ class Inliner:
         # itself was normalised; closures are processed here)
         res: List[ast.stmt] = []
         for x in binds + new:
-            if x is s:
+            if x is s or any(x is b_ for b_ in binds):
+                # the caller's own statement, and the bindings (they hold the caller's argument expressions)
                 res.extend(self._stmt(fi, x, nested, depth + 1))
             elif closure:
                 for f, lst in list(_stmt_lists(x)):
